@@ -5,7 +5,7 @@ From SV Require Import Base.Base IR.State IR.NS IR.Ops Xform.Clone Proofs.AssocX
   Proofs.InvP Proofs.InvW Proofs.Fresh Proofs.NsInv Proofs.Repoint Proofs.CloneInv Proofs.RefK Proofs.CloneRef Proofs.CloneT Proofs.FieldT
   Proofs.CloneMemo Proofs.CloneRR Proofs.CloneFaith Proofs.CloneInvP Proofs.CloneFull
   Proofs.CloneMemoK Proofs.CloneFaithK Proofs.CloneStage Proofs.CloneStageP Proofs.CloneRun Proofs.CloneEx Proofs.CloneRemap Proofs.CloneComm Proofs.CloneLib
-  Proofs.SrcTree Proofs.CloneNet Proofs.CloneTop Proofs.CloneFin Proofs.CloneFrame Proofs.CloneStart Proofs.KindD.
+  Proofs.SrcTree Proofs.CloneNet Proofs.CloneTop Proofs.CloneFin Proofs.CloneFrame Proofs.CloneStart Proofs.KindD Proofs.CloneTq.
 Import ListNotations RecordSetNotations.
 
 Lemma forall2_impl {A B} (R1 R2 : A -> B -> Prop) : (forall a b, R1 a b -> R2 a b) -> forall l l', Forall2 R1 l l' -> Forall2 R2 l l'.
@@ -63,7 +63,10 @@ Record NetFacts (s0 : state) (n : id) (sF sQ : state) (M : memo) (n' : id) (libs
   nf_hd : forall y, In y (flat_map (kids sQ RDefs) libs') -> exists d, In (d, y) M /\ kind_of s0 d = Some KDefinition;
   nf_cl : forall x x' e, In (x, x') M -> kind_of s0 x = Some KInstance -> iref s0 x = Some e -> In e (map fst M) /\ kind_of s0 e = Some KDefinition;
   nf_keys : forall x x', In (x, x') M -> x = n \/ In x (flat_map (lib_objects s0) (kids s0 RLibs n)) \/ top s0 n = Some x;
-  nf_memo : M = netlist_memo s0 n
+  nf_memo : M = netlist_memo s0 n;
+  (* the top-instance field: written at the copy of the netlist only, with the image of the top instance *)
+  nf_top : forall y t', top sF y = Some t' -> top s0 y = Some t' \/ (y = n' /\ exists t, In (t, t') M /\ top s0 n = Some t);
+  nf_topab : forall x, next sF <= x -> top sF x = None
 }.
 
 Lemma clone_netlist_facts s0 n :
@@ -111,15 +114,21 @@ Proof.
     - constructor; try reflexivity; intros r y Hr; destruct r; try reflexivity; contradiction.
     - intros y []. }
   assert (Et3 : top s3 n = top s0 n) by (apply (os_top _ _ _ (ci_os _ _ _ _ C2)); exact Hn).
+  assert (T03 : tq s0 s3).
+  { pose proof (tq_clone_alloc s0 KNetlist) as H. rewrite Ea in H. cbn [fst] in H. eapply tq_trans; [exact H|].
+    apply (tq_trans _ s1); [unfold s1; tq_triv|]. apply (tq_trans _ s2); [apply (tq_libs_clone1 _ _ _ _ _ _ _ Eb)|unfold s3; tq_triv]. }
   match goal with |- context [let '(r, m) := ?rt in _] => set (rtop := rt) end.
   assert (Hrt : snd (fst rtop) = None -> exists s8 M, rtop = ((s8, None), M) /\ RY s0 s8 M /\ msub m2 M /\ kids s8 = kids s3 /\ par s8 = par s3 /\
-     (forall x x', In (x, x') M -> ~ In (x, x') m2 -> top s0 n = Some x /\ iref s8 x' = remap_ref M (iref s0 x))).
+     (forall x x', In (x, x') M -> ~ In (x, x') m2 -> top s0 n = Some x /\ iref s8 x' = remap_ref M (iref s0 x)) /\
+     (forall y t', top s8 y = Some t' -> top s3 y = Some t' \/ (y = n' /\ exists t, In (t, t') M /\ top s0 n = Some t))).
   { unfold rtop. rewrite Et3. destruct (top s0 n) as [t|] eqn:Et.
     2:{ intros _. exists s3, m2. split; [reflexivity|]. split; [exact Y3|]. split; [intros e H; exact H|]. split; [reflexivity|]. split; [reflexivity|].
-        intros x x' H Hno. contradiction. }
+        split; [intros x x' H Hno; contradiction|]. intros y t' H; left; exact H. }
     destruct (mget m2 t) as [t'|] eqn:Em.
     - intros _. eexists. exists m2. split; [reflexivity|]. split; [apply (ry_feq s0 s3 _ m2); [constructor; reflexivity|exact Y3]|].
-      split; [intros e H; exact H|]. split; [reflexivity|]. split; [reflexivity|]. intros x x' H Hno. contradiction.
+      split; [intros e H; exact H|]. split; [reflexivity|]. split; [reflexivity|]. split; [intros x x' H Hno; contradiction|].
+      intros y t0. cbn. unfold upd. destruct (Nat.eqb_spec y n') as [->|Hyn]; [|intro H; left; exact H].
+      intro H. injection H as <-. right. split; [reflexivity|]. exists t. split; [apply mget_in; exact Em|reflexivity].
     - destruct (inst_clone1 (s3, m2) t) as [[s4 m4] t'] eqn:E4.
       destruct (inst_rr_def m4 s4 t') as [s5 [e5|]] eqn:E5; [cbn; discriminate|]. cbn [bindR].
       pose proof (Htop t eq_refl) as Hkt.
@@ -138,12 +147,19 @@ Proof.
       destruct (top_remap s0 s5 s7 m4 t t' U0 Y5 Ht'0 Hk5 Hin4 Hkt Hi5 Hcl5 E7) as [Y7 [I7 [D7 [K7 [P7 [N7 Kd7]]]]]].
       eexists. exists m4. split; [reflexivity|]. split; [apply (ry_feq s0 s7 _ m4); [constructor; reflexivity|exact Y7]|].
       split; [intros e H; rewrite Hm4; right; exact H|]. split; [cbn; rewrite K7, K5; reflexivity|]. split; [cbn; rewrite P7, P5; reflexivity|].
-      intros x x' H Hno. rewrite Hm4 in H. destruct H as [H|H]; [|contradiction]. injection H as <- <-. split; [reflexivity|].
-      cbn. rewrite I7, Nat.eqb_refl. reflexivity. }
+      split; [intros x x' H Hno; rewrite Hm4 in H; destruct H as [H|H]; [|contradiction]; injection H as <- <-; split; [reflexivity|];
+              cbn; rewrite I7, Nat.eqb_refl; reflexivity|].
+      assert (T37 : tq s3 s7).
+      { eapply tq_trans; [apply (tq_inst_clone1 _ _ _ _ _ _ E4)|]. pose proof (tq_inst_rr_def m4 s4 t') as T45. rewrite E5 in T45. cbn [fst] in T45.
+        eapply tq_trans; [exact T45|].
+        match type of E7 with rekey_all _ ?x _ = _ => pose proof (tq_rekey_all m4 x t') as T67; rewrite E7 in T67; cbn [fst] in T67; apply (tq_trans _ x); [|exact T67] end.
+        destruct (iref s5 t') as [e0|]; [destruct (mget m4 e0); [tq_triv|apply tq_refl]|apply tq_refl]. }
+      intros y t0. cbn. unfold upd. destruct (Nat.eqb_spec y n') as [->|Hyn]; [|intro H; left; rewrite (tq_top _ _ T37) in H; exact H].
+      intro H. injection H as <-. right. split; [reflexivity|]. exists t. split; [exact Hin4|reflexivity]. }
   assert (HM : snd rtop = netlist_memo s0 n).
   { unfold netlist_memo. rewrite Ea. cbn zeta. change (copy_data sa n n') with s1. rewrite Eks. fold ls. rewrite Eb. reflexivity. }
   clearbody rtop. destruct rtop as [[s8x e8] Mx]. cbn [fst snd] in Hrt, HM. cbn iota beta.
-  destruct e8 as [ex|]; [cbn; discriminate|]. destruct (Hrt eq_refl) as [s8 [M [Eq [Y8 [Sb8 [K8 [P8 New8]]]]]]]. injection Eq as -> ->. clear Hrt.
+  destruct e8 as [ex|]; [cbn; discriminate|]. destruct (Hrt eq_refl) as [s8 [M [Eq [Y8 [Sb8 [K8 [P8 [New8 Top8]]]]]]]]. injection Eq as -> ->. clear Hrt.
   cbn [bindR].
   set (s8' := match top s8 n' with Some t' => s8 <| istop ::= fun f => upd f t' true |> | None => s8 end).
   assert (F88 : feq s8 s8') by (unfold s8'; destruct (top s8 n'); [constructor; reflexivity|apply feq_refl]).
@@ -198,6 +214,22 @@ Proof.
     apply in_map_iff in H2 as [[a b] [E1 H2]]. cbn in E1. subst a. apply in_map_iff. exists (e, b). split; [reflexivity|apply Sb8; exact H2]. }
   assert (EkdF : kind_of sF = kind_of sQ) by (rewrite (fe_kind _ _ FEF); apply (fx_kind _ _ FXR)).
   assert (EnF : next sF = next sQ) by (rewrite (fe_next _ _ FEF); apply (fx_next _ _ FXR)).
+  assert (EtF : top sF = top s8).
+  { unfold sF. rewrite (tq_top _ _ (tq_reapply sR n')). unfold sR, filt2.
+    rewrite (fold_ids_pres top); [|intros sx l0; apply (fold_ids_pres top); reflexivity].
+    unfold sQ. rewrite (fold_ids_pres top) by reflexivity.
+    assert (TP : tq s8' sP).
+    { pose proof (tq_fold_idsR (fun s l' => fold_idsR (def_rr M) (kids s RDefs l') s) libs'
+                    (fun sx l0 => tq_fold_idsR (def_rr M) (kids sx RDefs l0) (fun sy d0 => tq_def_rr M sy d0) sx) s8') as H.
+      rewrite EP in H. exact H. }
+    rewrite (tq_top _ _ TP). unfold s8'. destruct (top s8 n'); reflexivity. }
+  assert (HtopF : forall y t', top sF y = Some t' -> top s0 y = Some t' \/ (y = n' /\ exists t, In (t, t') M /\ top s0 n = Some t)).
+  { intros y t' Hy. rewrite EtF in Hy. destruct (Top8 y t' Hy) as [H|H]; [left; rewrite <- (tq_top _ _ T03); exact H|right; exact H]. }
+  assert (HtopabF : forall x, next sF <= x -> top sF x = None).
+  { intros x Hx. destruct (top sF x) as [t'|] eqn:Ex; [|reflexivity]. exfalso.
+    pose proof (st_n0 _ _ _ (ri_st _ _ _ RQ)) as Hn0Q. destruct HS as [_ [HFT _]].
+    destruct (HtopF x t' Ex) as [H|[-> _]]; [rewrite (HFT x) in H by lia; discriminate|].
+    destruct (Hlibs sQ M YQ Sb8) as [A _]. lia. }
   exists sQ, M, libs'. cbn [snd]. constructor; try assumption.
   - apply Sb8. exact Hnn.
   - intro y. rewrite (fe_drefs _ _ FEF). destruct (memb y (flat_map (kids sQ RDefs) libs')) eqn:Em.
